@@ -273,6 +273,81 @@ def render(flavour, tree, faults):
 
 
 # ---------------------------------------------------------------------------------------------
+# wide documents: a root with N leaf children, serialised just below / just above one read of the pull parser
+# (16 KiB) and at about 2.5 and 4 reads, so that the streamed children arrive in several parser chunks
+
+PARSER_READ = 16 * 1024
+WIDE_FLAVOURS = ('plain', 'id', 'key', 'keyref', 'ns')
+WIDE_SIZES = ('below1', 'above1', 'x2.5', 'x4')
+WIDE_FAULT = {'plain': 'A', 'id': 'R', 'key': 'D', 'keyref': 'R', 'ns': 'X'}
+WIDE_VARIANTS = ('-', 'first', 'last')
+_PAD = '\n' + ' ' * 96                  # ignorable white space after every child
+
+_WIDE_KEY = '<xs:key name="K"><xs:selector xpath="n"/><xs:field xpath="@k"/></xs:key>'
+WIDE_SCHEMAS = {f: SCHEMAS[f].replace('maxOccurs="3"', 'maxOccurs="unbounded"') for f in ('plain', 'id', 'ns')}
+_WNREF = _NREF.replace('maxOccurs="3"', 'maxOccurs="unbounded"')
+WIDE_SCHEMAS['key'] = _HEAD + '<xs:element name="r" type="N">' + _WIDE_KEY + '</xs:element>' + _TYPE % (
+    _WNREF, '<xs:attribute name="k" type="xs:int"/>') + '</xs:schema>'
+WIDE_SCHEMAS['keyref'] = _HEAD + '<xs:element name="r" type="N">' + _WIDE_KEY + (
+    '<xs:keyref name="KR" refer="K"><xs:selector xpath="n"/><xs:field xpath="@g"/></xs:keyref></xs:element>') + _TYPE % (
+    _WNREF, '<xs:attribute name="k" type="xs:int"/><xs:attribute name="g" type="xs:int"/>') + '</xs:schema>'
+
+
+def render_wide(flavour, n, variant):
+    """-> (xml text, stream) for a root with n leaf children (numbered 1..n); variant '-' is valid, 'first' / 'last'
+    put the fault of the flavour on child 2 / child n (the duplicate key and the dangling references are made
+    against a child that lies in another parser chunk whenever there is more than one)."""
+    bad = {'-': 0, 'first': 2, 'last': n}[variant]
+    kind = WIDE_FAULT[flavour]
+    ns_t = '{urn:t}' if flavour == 'ns' else ''
+    root_scope = {'': 'urn:t', 'x': 'urn:x0', 'y': 'urn:y'} if flavour == 'ns' else {}
+    out, stream = [], []
+    rattrs = [('v', '0')] + ([('id', 'i0'), ('ref', 'i%d' % n)] if flavour == 'id' else []) + (
+        [('q', 'x:a')] if flavour == 'ns' else [])
+    out.append('<r' + ''.join(' xmlns%s="%s"' % (':' + p if p else '', u) for p, u in root_scope.items()) +
+               ''.join(' %s="%s"' % kv for kv in rattrs) + '>' + _PAD)
+    stream.append((0, ns_t + 'r', _PAD, dict(rattrs), dict(root_scope)))
+    far = lambda i: (i + n // 2 - 1) % n + 1            # a child about half the document away
+    for i in range(1, n + 1):
+        f = kind if i == bad else None
+        attrs = [('v', 'x' if f == 'A' else str(i))]
+        if flavour == 'id':
+            attrs += [('id', 'i%d' % i), ('ref', 'nope' if f == 'R' else 'i%d' % far(i))]
+        elif flavour == 'key':
+            attrs += [('k', str(n if i == 2 else 1) if f == 'D' else str(i))]
+        elif flavour == 'keyref':
+            attrs += [('k', str(i)), ('g', '0' if f == 'R' else str(far(i)))]
+        elif flavour == 'ns':
+            attrs += [('q', 'x:a')]
+        decl, scope = [], root_scope
+        if flavour == 'ns' and i % 3 != 2:
+            decl = [('', 'urn:t'), ('x', 'urn:x%d' % i)] if i % 3 == 0 else \
+                [('p', 'urn:t'), ('', 'urn:o%d' % i), ('x', 'urn:x%d' % i)]
+            scope = dict(root_scope)
+            scope.update(decl)
+        pfx = '' if flavour != 'ns' or scope.get('') == 'urn:t' else 'p:'
+        out.append('<%sn' % pfx + ''.join(' xmlns%s="%s"' % (':' + p if p else '', u) for p, u in decl) +
+                   ''.join(' %s="%s"' % kv for kv in attrs) + '><%st>%d</%st>' % (pfx, i, pfx))
+        stream.append((1, ns_t + 'n', None, dict(attrs), dict(scope)))
+        stream.append((2, ns_t + 't', str(i), {}, dict(scope)))
+        if f == 'X':
+            out.append('<%sz/>' % pfx)
+            stream.append((2, ns_t + 'z', None, {}, dict(scope)))
+        out.append('</%sn>' % pfx + _PAD)
+    out.append('</r>')
+    return ''.join(out), stream
+
+
+def wide_children(flavour, size):
+    """Number of children for which the valid document is just below one parser read, just above it, ~2.5 or ~4 reads."""
+    below = 1
+    while len(render_wide(flavour, below + 1, '-')[0]) < PARSER_READ:
+        below += 1
+    per = len(render_wide(flavour, below, '-')[0]) / below
+    return {'below1': below, 'above1': below + 2, 'x2.5': int(2.5 * PARSER_READ / per), 'x4': int(4 * PARSER_READ / per)}[size]
+
+
+# ---------------------------------------------------------------------------------------------
 # corpus: pair the XML files of /repo/tests/test_cases as the test suite does (tests/test_cases/testfiles lines),
 # the remaining XML files are paired through their own schema location hints
 
